@@ -439,3 +439,28 @@ Definition show_model_ok (prefix ts : string) (wc : write_config) (seen : list (
   end.
 Definition show_spec_ok (prefix ts : string) (wc : write_config) (seen : list (Z * option string)) : bool :=
   emitted_eqb (emitted_codes (expected_outputs wc prefix ts)) seen.
+
+(* rows of the case shards: (model = implementation, property holds of the implementation) *)
+Definition hist_case (v : option string) (argv : list string) (ops : list op) (o : observed) : bool * bool :=
+  (history_model_ok v argv ops o, history_spec_ok v argv ops o).
+Definition handoff_case (v : option string) (argv : list string) (p : Z) (ops : list op) (o : observed) : bool * bool :=
+  (history_model_ok v argv (OpOverwrite (Some (Ext p)) :: ops) o, handoff_spec_ok v argv p ops o).
+Definition show_case (prefix ts : string) (wc : write_config) (seen : list (Z * option string)) : bool * bool :=
+  (show_model_ok prefix ts wc seen, show_spec_ok prefix ts wc seen).
+
+(* whole interpreter runs: which decorations returned their argument, what appeared at exit *)
+Definition is_ret (b : obs) : bool := match b with ObsRet _ => true | _ => false end.
+Definition ret_is_same (b : obs) : bool := match b with ObsRet (Fn _) => true | _ => false end.
+Definition sub_case (v : option string) (argv : list string) (ops : list op) (wc : write_config) (ts : string)
+           (sames : list bool) (seen : list (Z * option string)) : bool * bool :=
+  let '(bs, s) := run (environ_of v) argv gp_init ops in
+  let req := requestedb v argv in
+  (list_eqb Bool.eqb (map ret_is_same (filter is_ret bs)) sames
+   && match at_exit s wc ts with
+      | [] => emitted_eqb [] seen
+      | [Ok e] => emitted_eqb (emitted_codes e) seen
+      | _ => false
+      end,
+   list_eqb Bool.eqb (map ret_is_same (filter is_ret (spec_obs req (Own 1) None ops))) sames
+   && emitted_eqb (if spec_active req None ops
+                   then emitted_codes (expected_outputs wc (spec_prefix init_output_prefix ops) ts) else []) seen).
